@@ -78,7 +78,7 @@ def parse_model(line):
         return steps
     for part in line.split(" | "):
         toks = part.split(" ")
-        d = {"r": toks[0]}
+        d = {"res": toks[0]}
         for t in toks[1:]:
             key, _, val = t.partition("=")
             d[key] = [int(x) for x in val.split(",") if x != ""]
